@@ -48,7 +48,7 @@ type beh struct {
 var (
 	epSeq   = []string{"sign", "getkey", "listkeys"}
 	nameSeq = []string{"ka", "kb", "kc", "unknown"}
-	peerSeq = []string{"untrusted", "trusted", "neighbour"}
+	peerSeq = []string{"untrusted", "trusted", "neighbour", "trusted6", "neighbour6"}
 	xffSeq  = []string{"none", "one"}
 	tlsSeq  = []string{"fp", "ca", "canoeku", "unk", "none", "casamekey", "caexpired"}
 	hdrSeq  = []string{"fp", "ca", "canoeku", "unk", "none", "bad", "casamekey", "caexpired"}
@@ -63,18 +63,20 @@ func reqAt(i int) request {
 	i /= 7
 	x := i % 2
 	i /= 2
-	p := i % 3
-	i /= 3
+	p := i % 5
+	i /= 5
 	n := i % 4
 	e := i / 4
 	return request{epSeq[e], nameSeq[n], peerSeq[p], xffSeq[x], tlsSeq[t], hdrSeq[h]}
 }
 
 const (
-	untrustedAddr = "203.0.113.9"
-	trustedAddr   = "10.1.1.1"   // configured as a bare IP
-	neighbourAddr = "10.200.7.9" // same classful (/8) network as the bare-IP proxy, not trusted
-	clientAddr    = "198.51.100.7"
+	untrustedAddr  = "203.0.113.9"
+	trustedAddr    = "10.1.1.1"   // configured as a bare IP
+	neighbourAddr  = "10.200.7.9" // same classful (/8) network as the bare-IP proxy, not trusted
+	clientAddr     = "198.51.100.7"
+	trusted6Addr   = "2001:db8:10::5"    // configured as a bare IPv6 address
+	neighbour6Addr = "2001:db8:beef::66" // same /32 as the bare IPv6 proxy, not trusted
 )
 
 type material struct {
@@ -152,7 +154,7 @@ func (m *material) writeConfig(dir string, b *beh) string {
 	}
 	audit := filepath.Join(dir, "audit.log")
 	fmt.Fprintf(&sb, "auditfile: %s\n", audit)
-	sb.WriteString("server:\n  listen: \":0\"\n  tokencheckinterval: 3600\n  tokencacheseconds: -1\n  trustedproxies: [\"10.1.1.1\", \"192.168.77.0/24\"]\n")
+	sb.WriteString("server:\n  listen: \":0\"\n  tokencheckinterval: 3600\n  tokencacheseconds: -1\n  trustedproxies: [\"10.1.1.1\", \"192.168.77.0/24\", \"2001:db8:10::5\"]\n")
 	sb.WriteString("clients:\n")
 	fmt.Fprintf(&sb, "  %s:\n    nickname: fpclient\n    roles: %s\n", m.fp.Fingerprint(), yamlList(b.Croles["fp"]))
 	fmt.Fprintf(&sb, "  caclient:\n    nickname: caclient\n    roles: %s\n    certificate: |\n%s", yamlList(b.Croles["ca"]), indent(m.ca.PEM(), "      "))
@@ -177,6 +179,10 @@ func (m *material) build(r request) *http.Request {
 		req.RemoteAddr = trustedAddr + ":4444"
 	} else if r.peer == "neighbour" {
 		req.RemoteAddr = neighbourAddr + ":4444"
+	} else if r.peer == "trusted6" {
+		req.RemoteAddr = "[" + trusted6Addr + "]:4444"
+	} else if r.peer == "neighbour6" {
+		req.RemoteAddr = "[" + neighbour6Addr + "]:4444"
 	} else {
 		req.RemoteAddr = untrustedAddr + ":5555"
 	}
@@ -237,7 +243,7 @@ func replayOne(r *res.Result, m *material, dir string, b *beh) {
 		expStatus := code / 10000
 		expTouched := (code/1000)%10 == 1
 		expMask := (code / 10) % 100
-		expAddr := []string{untrustedAddr, trustedAddr, clientAddr, neighbourAddr}[code%10]
+		expAddr := []string{untrustedAddr, trustedAddr, clientAddr, neighbourAddr, trusted6Addr, neighbour6Addr}[code%10]
 		rec := httptest.NewRecorder()
 		h.ServeHTTP(rec, m.build(rq))
 		calls := faketoken.TakeCalls()
